@@ -25,7 +25,9 @@ class DefusableReader(BufferedIOBase):
     """
     A class for wrapping a not seekable buffered IO stream in a partially seekable
     stream that can be defused. The initial buffer size is 64KiB and can't be lower
-    than io.DEFAULT_BUFFER_SIZE.
+    than io.DEFAULT_BUFFER_SIZE. Until the first call of seek() the buffer keeps all
+    the data read from the stream, so the check of a prolog longer than the initial
+    buffer can be followed by a rewind.
     """
     def __init__(self, fp: BufferedIOBase, initial_buffer_size: int = 64 * 1024):
         if not isinstance(fp, BufferedIOBase):
@@ -43,6 +45,7 @@ class DefusableReader(BufferedIOBase):
         buf += fp.read(initial_buffer_size)
         self._buffer = buf
         self._buffer_size = len(buf)
+        self._growing = True
         self._fp = fp
         self._pos = 0
         self._fp_lock = Lock()
@@ -70,6 +73,7 @@ class DefusableReader(BufferedIOBase):
             raise TypeError(f"{pos!r} is not an integer")
 
         with self._fp_lock:
+            self._growing = False
             if whence == 0:
                 if pos < 0:
                     raise ValueError(f"negative seek position {pos!r}")
@@ -113,6 +117,9 @@ class DefusableReader(BufferedIOBase):
 
         if self._pos >= self._buffer_size:
             data = self._fp.read(size)
+            if self._growing:
+                self._buffer += data
+                self._buffer_size = len(self._buffer)
             self._pos += len(data)
             return data
 
@@ -136,6 +143,9 @@ class DefusableReader(BufferedIOBase):
                 chunks.append(chunk)
             data = b"".join(chunks)
 
+        if self._growing and len(data) > len(buffer):
+            self._buffer += data[len(buffer):]
+            self._buffer_size = len(self._buffer)
         self._pos += len(data)
         if isinstance(data, bytearray):
             return bytes(data)
